@@ -115,7 +115,15 @@ func runC06tcp(line string) string {
 		}
 		time.Sleep(5 * time.Millisecond)
 	}
-	time.Sleep(40 * time.Millisecond) // the probe connection was relayed to some backend and is gone again
+	// the probe connection was relayed to some backend: wait until it is gone again
+	waitFor(3*time.Second, func() bool {
+		for _, h := range hosts {
+			if h.ConnCount() != 0 {
+				return false
+			}
+		}
+		return true
+	})
 	type kept struct {
 		c    net.Conn
 		b    int
@@ -169,11 +177,10 @@ func runC06tcp(line string) string {
 		case 'r':
 			if arg < nb {
 				p.OnSvcHostRemove([]*host.Host{host.New(bes[arg].addr)})
-				time.Sleep(30 * time.Millisecond)
 				closed := 0
 				for _, k := range ks {
 					if k.open && k.b == arg {
-						k.c.SetReadDeadline(time.Now().Add(300 * time.Millisecond))
+						k.c.SetReadDeadline(time.Now().Add(time.Duration(float64(1500*time.Millisecond) * loadFactor)))
 						one := make([]byte, 1)
 						if _, err := k.c.Read(one); err != nil {
 							if ne, ok := err.(net.Error); !(ok && ne.Timeout()) {
@@ -193,7 +200,21 @@ func runC06tcp(line string) string {
 				p.OnSvcHostAdd([]*host.Host{h})
 			}
 		}
-		time.Sleep(25 * time.Millisecond)
+		// the counts follow the relays' goroutines: give them time to reach what the kept connections imply
+		waitFor(2*time.Second, func() bool {
+			want := make([]uint64, nb)
+			for _, k := range ks {
+				if k.open {
+					want[k.b]++
+				}
+			}
+			for i, h := range hosts {
+				if h.ConnCount() != want[i] {
+					return false
+				}
+			}
+			return true
+		})
 		outs = append(outs, strings.TrimSpace(res+" "+counts()))
 		if op[0] == 'o' {
 			annotated = append(annotated, "o:"+res)
@@ -207,7 +228,14 @@ func runC06tcp(line string) string {
 			k.c.Close()
 		}
 	}
-	time.Sleep(40 * time.Millisecond)
+	waitFor(3*time.Second, func() bool {
+		for _, h := range hosts {
+			if h.ConnCount() != 0 {
+				return false
+			}
+		}
+		return true
+	})
 	outs = append(outs, "end "+counts())
 	return strings.Join(outs, " ; ")
 }
